@@ -657,4 +657,10 @@ def run(ctx: Ctx):
     c.check_policy()
     c.check_label_to_tags()
     c.check_label_from()
+    # labels are written as key_from_term(tag.term) + separator + value and parsed back through term_from_key: "labels preserved"
+    # rests on that codec (a key that is not the term's label exports another label and select_by_key no longer finds the tag)
+    from .c01 import check_term_codec
+    with ctx.delegated("C01/"):
+        ctx.rule("R01.7", "term codec: key_from_term is the label, term_from_key rebuilds it", 2)
+        check_term_codec(ctx)
     return EXPLANATION, ASSUMPTIONS
